@@ -8,7 +8,7 @@ STD_ACCESSORS = ("::begin", "::end", "::data", "::operator[]", "::at", "::front"
                  "::operator*", "::operator->", "::find", "::lower_bound", "::upper_bound")
 # Tasmanian's own containers: non-const overloads that only hand out a pointer/reference into the
 # container (writes through the result are tracked through aliases / lvalue paths)
-REPO_ACCESSORS = ("Data2D<double>::getStrip", "Data2D<int>::getStrip", "Data2D<float>::getStrip", "::getVector", "StorageSet::getValues",
+REPO_ACCESSORS = ("Data2D<int>::getIStrip", "Data2D<double>::getStrip", "Data2D<int>::getStrip", "Data2D<float>::getStrip", "::getVector", "StorageSet::getValues",
                   "Wrapper2D<double>::getStrip", "Wrapper2D<int>::getStrip", "Wrapper2D<const double>::getStrip", "Data2D<double>::data", "Data2D<int>::data")
 
 
